@@ -24,7 +24,7 @@ def describe(tier):
         rule='HTML: all forests with <= %d nodes, and all forests with <= %d nodes in which one element at a time carries one of %d '
              'attribute sets (class token lists, empty values, expressions, valueless); CSS: all forests with <= %d nodes, declaration '
              'menu with recorded value tokens %s in %d rotations, layouts compact and spaced, last declaration of a body with and '
-             'without `;`; x every position 0..len, both directions of select_item_*. Transition = caret +1 / one more node.' % (
+             'without `;`; x every position 0..len, both directions of select_item_*; select_item_html also with its options argument (empty `special` table on documents whose bare <script> has markup children; the defaults spelled out); get_css_section also on every stylesheet with a stray `}` typed in front of its last top-level rule, and (weak oracle) on stylesheets with value-less statements. Transition = caret +1 / one more node.' % (
                  b['html_plain'], b['html_attrs'], len(ATTRS), b['css_nodes'], [d[:2] for d in CD.DECLS_TOKENS], b['rotations']),
         nontrivial='the helper is expected to return something at that position.',
         bounds=b,
